@@ -523,6 +523,11 @@ pub fn gen_scen(rng: &mut Rng, _thorough: bool) -> Scen {
             // with an output directory the diagnostic files of a failing child are compared as well
             sc.out_dir = *rng.pick(&[0, 1]);
             sc.expect = json!({"noCrash": true, "survivors": 0, "verbose": verbose});
+            // every child of this run ends the same way; when that way is a failure (ill-shaped or unparsable output,
+            // a death by signal - also after a perfectly valid answer) the very first evaluation fails the run
+            let fails = out.get("self_signal").is_some() || out.get("stdout_hex").is_some()
+                || matches!(out["stdout"].as_str(), Some("{\"objFuncVal\": ") | Some("") | Some("[1]"));
+            if fails { sc.expect["exit"] = json!("fail"); }
             sc
         }
         _ => {
